@@ -425,3 +425,60 @@ class remove_data:
         others_same7(self, self._data),
     ]
     modifies = lambda self, name: [field(self, "_cache"), self._ids, self._data]
+
+
+# ----------------------------------------------------------------------------- reactions (add / update)
+# The stoichiometry given by the caller is translated by a dict comprehension that allocates
+# a Derived record for every coefficient given as a name (pyvc: comprehension allocating
+# records).  What C03 needs from these two mutators is the name-space / cache part; the
+# translated coefficients are characterised only as "a fresh dict".
+
+
+@contract("mxlpy.model:Model.add_reaction")
+class add_reaction:
+    requires = lambda self, name, fn, args, stoichiometry, unit: Wf(self)
+    raises = {
+        KeyError: lambda self, name, fn, args, stoichiometry, unit: name == "time",
+        NameError: lambda self, name, fn, args, stoichiometry, unit: name != "time" and name in self._ids,
+    }
+    on_raise = lambda self, name, fn, args, stoichiometry, unit: content_same(self)
+    ensures = lambda self, name, fn, args, stoichiometry, unit, result: [
+        result is self,
+        Wf(self),
+        self._cache is None,
+        added(self._ids, name),
+        self._ids[name] == "reaction",
+        added(self._reactions, name),
+        fresh(self._reactions[name]),
+        self._reactions[name].fn is fn,
+        self._reactions[name].args is args,
+        self._reactions[name].unit is unit,
+        fresh(self._reactions[name].stoichiometry),
+        others_same7(self, self._reactions),
+    ]
+    modifies = lambda self, name, fn, args, stoichiometry, unit: [field(self, "_cache"), self._ids, self._reactions]
+
+
+@contract("mxlpy.model:Model.update_reaction")
+class update_reaction:
+    requires = lambda self, name, fn, args, stoichiometry, unit: Wf(self)
+    raises = {KeyError: lambda self, name, fn, args, stoichiometry, unit: name not in self._reactions}
+    on_raise = lambda self, name, fn, args, stoichiometry, unit: content_same(self)
+    ensures = lambda self, name, fn, args, stoichiometry, unit, result: [
+        result is self,
+        Wf(self),
+        self._cache is None,
+        content_same(self),
+        self._reactions[name].fn is (old(self._reactions[name].fn) if fn is None else fn),
+        self._reactions[name].args is (old(self._reactions[name].args) if args is None else args),
+        self._reactions[name].unit is (old(self._reactions[name].unit) if unit is None else unit),
+        implies(stoichiometry is None, self._reactions[name].stoichiometry is old(self._reactions[name].stoichiometry)),
+        implies(stoichiometry is not None, fresh(self._reactions[name].stoichiometry)),
+    ]
+    modifies = lambda self, name, fn, args, stoichiometry, unit: [
+        field(self, "_cache"),
+        field(self._reactions[name], "fn"),
+        field(self._reactions[name], "args"),
+        field(self._reactions[name], "unit"),
+        field(self._reactions[name], "stoichiometry"),
+    ]
